@@ -194,6 +194,22 @@ def class_method(eng, cls, attr, recv):
 
 
 OPAQUE_CALL = {}     # opaque type name -> fn(eng, st, f, args, kwargs, line)
+app_call1 = z3.Function('app_call1', I, PV, PV)
+app_call0 = z3.Function('app_call0', I, PV)
+
+
+def _call_app_object(eng, st, f, args, kwargs, line):
+    """An application-supplied callable stored in configuration (CORS predicate, cookie
+    attribute): assumed to be a pure function of its argument that does not raise."""
+    if kwargs or len(args) > 1:
+        raise core.EngineError('application callable form at line %d' % line)
+    if args:
+        yield st, V(ANY, app_call1(f.t, box(args[0]) if args[0].ty.kind != 'none' else PV.pnone))
+    else:
+        yield st, V(ANY, app_call0(f.t))
+
+
+OPAQUE_CALL['object'] = _call_app_object
 
 
 def call_opaque(eng, st, f, args, kwargs, line):
@@ -228,9 +244,11 @@ def to_str(eng, v):
     return py_str_any(box(v))
 
 
-def mklist(eng, vs):
+def mklist(eng, vs, st=None):
     if not vs:
         return V(List(BOT), None)
+    if st is not None and any(v.ty.kind == 'any' for v in vs):
+        vs = [eng.narrow(st, v) for v in vs]
     tys = set(v.ty for v in vs)
     if len(tys) == 1:
         ty = vs[0].ty
@@ -374,8 +392,16 @@ def binop(eng, st, op, a, b, line):
     yield st, R('TypeError', line)
 
 
+def tup_to_ss(v):
+    if v.ty.kind == 'tup' and len(v.t) == 2 and all(x.ty.kind == 'str' for x in v.t):
+        return V(SS_T, SS.mkss(v.t[0].t, v.t[1].t))
+    return v
+
+
 def eq_term(eng, a, b):
     """Python == as a Bool term (total)."""
+    if a.ty.kind == 'ss' or b.ty.kind == 'ss':
+        a, b = tup_to_ss(a), tup_to_ss(b)
     ka, kb = a.ty.kind, b.ty.kind
     num = ('int', 'bool', 'real')
     if ka in num and kb in num:
@@ -509,6 +535,8 @@ def contains(eng, st, x, c, line):
             yield st, z3.Contains(c.t, x.t)
     elif k == 'list':
         ety = c.ty.args[0]
+        if ety.kind == 'ss':
+            x = tup_to_ss(x)
         if ety.kind == 'bot':
             yield st, z3.BoolVal(False)
         elif ety.kind == 'any':
@@ -649,6 +677,13 @@ def index(eng, st, o, i, line):
                 yield s1, vstr(z3.SubString(o.t, idx, 1))
             else:
                 yield s1, V(INT, z3.Int(eng.name('byte')))
+        return
+    if k == 'ss':
+        iv = z3.simplify(i.t)
+        if z3.is_int_value(iv) and iv.as_long() in (0, 1, -1, -2):
+            yield st, vstr((SS.ss0, SS.ss1)[iv.as_long() % 2](o.t))
+        else:
+            yield st, R('IndexError', line)
         return
     if k == 'json':
         if i.ty.kind == 'str':
@@ -1015,6 +1050,7 @@ def _quant(eng, st, e, q):
         eng.quants[t.get_id()] = (t, consts, rng, body)
     else:
         t = z3.Exists(consts, z3.And(*(rng + [body])))
+        eng.quants[t.get_id()] = (t, consts, rng, body)
     yield st, vbool(t)
 
 
@@ -1072,13 +1108,15 @@ def isinstance_term(eng, v, tname):
             'dict': z3.And(PV.is_pj(t), j_isdict(PV.jv(t))),
             'list': z3.Or(PV.is_pls(t), z3.And(PV.is_pj(t), z3.Not(j_isdict(PV.jv(t))))),
             'tuple': z3.BoolVal(False), 'object': z3.BoolVal(True), 'set': z3.BoolVal(False),
-            'NoneType': PV.is_pnone(t),
+            'NoneType': PV.is_pnone(t), 'liststr': PV.is_pls(t),
         }[tname]
     table = {
         'str': ('str',), 'bytes': ('bytes',), 'bytearray': ('bytearray',),
         'int': ('int', 'bool'), 'bool': ('bool',), 'float': ('real',),
         'tuple': ('tup',), 'set': (), 'NoneType': ('none',),
     }
+    if tname == 'liststr':
+        return z3.BoolVal(k == 'list' and v.ty.args[0].kind in ('str', 'bot'))
     if tname == 'object':
         return z3.BoolVal(True)
     if tname == 'dict':
